@@ -272,10 +272,9 @@ def emit(v):
 
 # pinned: only what is NOT translated (harness/c09/translate.py regenerates the rest on every run)
 PINS = {
-    AUTH: ['b64encode', 'b64decode', 'AuthTicket.__init__', 'AuthTktCookieHelper.__init__', 'BadTicket', 'BadTicket.__init__',
-           # the policy wrapper: a second public entry point to the same helper (also driven by the harness)
-           'AuthTktAuthenticationPolicy.__init__', 'AuthTktAuthenticationPolicy.unauthenticated_userid',
-           'AuthTktAuthenticationPolicy.remember', 'AuthTktAuthenticationPolicy.forget'],
+    # (both constructors and the policy wrapper -- a second public entry point, also driven by the harness -- are
+    # translated since the fifth round)
+    AUTH: ['b64encode', 'b64decode', 'AuthTicket.__init__', 'BadTicket', 'BadTicket.__init__'],
     'pyramid/util.py': ['strings_differ', 'text_', 'bytes_', 'ascii_', 'SimpleSerializer.loads', 'SimpleSerializer.dumps'],
 }
 
